@@ -225,7 +225,7 @@ impl Prop for C20 {
         "generated: searches (vertex orientation; Dijkstra, A*, single-via with several routes) on generated networks x geometry table with 2-6 points per edge whose coordinates encode edge id and point index x optionally truncated geometry table (missing rows) x identifier table; the traversal plugin is built from files for each of the 5 route formats and 5 tree formats and run on the same search result; WKT and WKB are decoded by own minimal readers. non-trivial = a route with >= 3 edges whose geometries have different point counts".to_string()
     }
     fn cases(&self, tier: Tier) -> u32 {
-        tier.pick(20_000, 400_000)
+        tier.pick(40_000, 600_000)
     }
     fn assumptions(&self) -> Vec<String> {
         vec!["coordinates are compared exactly (f32 text round trip is exact for shortest-representation output)".into()]
